@@ -391,7 +391,10 @@ pub fn run(opts: &Opts) -> i32 {
     });
 
     // ---- B. connection level
-    super::c10_conn::run_part(opts, &rep);
+    // (the strict interpreter stage covers the pure codec part only)
+    if std::env::var("VERIF_SANITIZER").as_deref() != Ok("miri") {
+        super::c10_conn::run_part(opts, &rep);
+    }
 
     rep.extra("exhaustive_stream_max_len", json!(max_short));
     rep.assume("streams are produced by the library encoder from generated values (their validity is C01's subject)");
